@@ -1,3 +1,4 @@
+import LP.Props.GenTables
 import LP.Props.Elim
 #print axioms LP.Eval.ievalM_encloses
 #print axioms LP.Eval.refineAll_sound
@@ -9,3 +10,8 @@ import LP.Props.Elim
 #print axioms LP.MPoly.evalAt_decompose
 #print axioms LP.Eval.eliminant_root
 #print axioms LP.Eval.C10_sign_exact
+#print axioms LP.Gen.enum_order
+#print axioms LP.Gen.negate_eq
+#print axioms LP.Gen.consistent_eq
+#print axioms LP.Gen.zpValid_eq
+#print axioms LP.Gen.consistentInterval_eq
